@@ -232,7 +232,7 @@ theorem iter_eq_spec_daily (da : DailyArgs a) (h : construct a = .ok r) (n : Nat
     results := fun k st hk hg => daily_results da h k st hg (hmono k (by omega))
     next := fun k st fl c hk hg => daily_next da h k st fl c hg (hmono (k + 1) (by omega))
     bounded := by
-      intro k hk x hx
+      intro k _ hk _ x hx
       rw [daily_sel da k] at hx
       have hpos := startOrd_pos da
       have hk0 : (0 : Int) ≤ k * a.interval := Int.mul_nonneg (by omega) (by omega)
